@@ -1,6 +1,8 @@
 import XrsVerif.Proofs.BufProg
+import XrsVerif.Proofs.BackendKind
 import XrsVerif.Model.Aliasing
 import XrsVerif.Gen.BufProgs
+import XrsVerif.Gen.DaskKinds
 /-
   C10 -- Analysis functions never modify their inputs and keep the raster's identity.
 
@@ -21,9 +23,16 @@ import XrsVerif.Gen.BufProgs
   is written) are rejected by the checker, with the component named by the driver's diagnostics.
   Part 3 (identity): the returned `DataArray(out, coords=…, dims=…, attrs=…)` takes coords, dims and
   attrs from the input raster, for every function whose contract is `identity`.
-  Not covered here (see design_notes/C10.md): that the buffer program abstracts the Python code
-  faithfully (trusted translator + primitive table, probed and observed by harness/corr_C10.py),
-  the dask backend (observed only), the output's shape (observed only).
+  Part 4 (array backend): `Gen.daskEntries` holds, for every public raster function with a Dask path, the *kind
+  program* of that path (wrapper, dispatch and Dask branch function inlined by harness/facts_daskkind.py, raster
+  parameters assumed Dask-backed).  The kind checker `BK.bcheck` is sound for every run (either branch, any iteration
+  count), and it accepts every generated program: whatever such a function returns on its Dask path is a dask
+  collection -- never the result of `.compute()`, `np.asarray`, `.values` or of a NumPy kernel applied to the whole
+  array -- on every path, early returns included.
+  Not covered here (see design_notes/C10.md): that the buffer / kind programs abstract the Python code
+  faithfully (trusted translators + primitive tables, probed and observed by harness/corr_C10.py),
+  that the values / coords / attrs of the inputs are unchanged on the dask backend (observed only), the output's
+  shape (observed only).
 -/
 namespace XrsVerif.C10
 open XrsVerif XrsVerif.BP XrsVerif.Meta XrsVerif.Gen
@@ -214,6 +223,12 @@ theorem local_safe : [entry_local_cell_stats, entry_local_combine, entry_local_l
 theorem translator_selftest :
     selftest.all (fun t => safeAll t.2.1 (inputs t.2.2.1) t.2.2.2.1 == t.2.2.2.2) = true := by decide +kernel
 
+/-- the same self-test at the component level: a store through a parameter (`agg.attrs[k] = …`, `agg.data[...] = …`,
+    `agg.coords[...] = …`, `agg[name] = …`) is a write of the corresponding input component -- cells, coordinates or
+    attrs -- on every path, paths that end in `raise` included (the input must be intact when the call is rejected) -/
+theorem translator_selftest_components :
+    selftestWrites.all (fun t => mayWrite t.2.1 t.2.2.1 == t.2.2.2) = true := by decide +kernel
+
 /-- nothing in any generated program was left unclassified by the translator -/
 theorem no_unknown_construct : allEntries.all (fun e => !e.prog.hasUnknown) = true := by decide +kernel
 
@@ -281,7 +296,67 @@ theorem identity_functions_present :
       (match (contractOf n (paramsOf allEntries n)).shape with | .identity _ _ => true | _ => false)) = true := by
   decide +kernel
 
+/-! ### Part 4: the array backend -/
+
+/-- **soundness of the kind checker**: if `lazyOk` accepts a program then every value it returns -- on any branch,
+    after any number of loop iterations, from an early `return` or the last one -- is a dask collection -/
+theorem lazyOk_sound (n : Nat) (p : BK.Prog) (a0 : BK.AEnv) (e : BK.Env) (x : BK.Kind)
+    (h : BK.Rel e a0) (hok : BK.lazyOk n p a0 = true) (hx : BK.Exec p e (.returned x)) : x = .lazy := by
+  unfold BK.lazyOk at hok
+  cases hb : BK.bcheck n p a0 with
+  | none => simp [hb] at hok
+  | some pr =>
+    obtain ⟨a', rs⟩ := pr
+    simp only [hb, Bool.and_eq_true, Bool.not_eq_true'] at hok
+    have hs : rs.has x = true := BK.bcheck_sound hx h hb
+    cases x with
+    | lazy => rfl
+    | eager => simp [BK.KSet.has, hok.1] at hs
+    | scalar => simp [BK.KSet.has, hok.2] at hs
+
+/-- every generated Dask-path program is accepted (kernel evaluation of the checker on the programs compiled from
+    /repo's current source) -/
+theorem dask_paths_return_dask_collections : daskEntries.all (·.ok) = true := by decide +kernel
+
+/-- **backend clause**: a public raster function called with Dask-backed rasters returns a dask collection, on every
+    run of the kind program of its Dask path -/
+theorem public_dask_path_keeps_backend (d : BK.DaskEntry) (hd : d ∈ daskEntries) (e : BK.Env)
+    (he : ∀ p ∈ d.lazyParams, e p = .lazy) (x : BK.Kind) (hx : BK.Exec d.prog e (.returned x)) : x = .lazy :=
+  lazyOk_sound d.nvars d.prog _ e x (BK.rel_init he)
+    (by simpa [BK.DaskEntry.ok] using List.all_eq_true.mp dask_paths_return_dask_collections d hd) hx
+
+/-- the kind translator's verdicts on its self-test (a thin-chunk fallback `return kernel(data.compute())`, `np.asarray`,
+    `.values`, a loop that computes, the NumPy function on the Dask branch, an early eager return; harmless twins:
+    `map_overlap`, an `isinstance` branch, loops of lazy arithmetic, `module=da`, computed *scalars* mixed into lazy
+    arithmetic): every bad pattern is rejected and every harmless one accepted -/
+theorem dask_translator_selftest : daskSelftest.all (fun t => t.2.1.ok == t.2.2) = true := by decide +kernel
+
+/-- the backend clause is not vacuous: these functions are present -/
+theorem dask_functions_present :
+    ["slope.slope", "aspect.aspect", "curvature.curvature", "hillshade.hillshade", "classify.binary",
+     "classify.reclassify", "classify.quantile", "classify.equal_interval", "convolution.convolution_2d",
+     "focal.mean", "focal.apply", "focal.hotspots", "multispectral.arvi", "multispectral.evi", "multispectral.gci",
+     "multispectral.nbr", "multispectral.nbr2", "multispectral.ndvi", "multispectral.ndmi", "multispectral.savi",
+     "multispectral.sipi", "multispectral.ebbi", "proximity.proximity", "proximity.allocation",
+     "proximity.direction"].all (fun n => daskEntries.any (fun d => d.name == n && !d.lazyParams.isEmpty &&
+       0 < d.prog.size)) = true := by
+  decide +kernel
+
 /-! ### non-vacuity -/
+
+/-- backend: `if thin: return kernel(data.compute())` before the lazy `map_overlap` is rejected … -/
+example : BK.lazyOk 2 (BK.Prog.ofItems [.ite (BK.Prog.ofItems [.ret (.const .eager)]) .done,
+    .assign 1 (.same 0), .ret (.same 1)]) (BK.initEnv [0]) = false := by decide
+/-- … and it really has a run that returns an in-memory array although the parameter is a dask collection -/
+example : BK.Exec (BK.Prog.ofItems [.ite (BK.Prog.ofItems [.ret (.const .eager)]) .done,
+    .assign 1 (.same 0), .ret (.same 1)]) (fun _ => .lazy) (.returned .eager) :=
+  .iteLret (.ret (.const .eager _))
+/-- the lazy shape is accepted; a computed scalar mixed into lazy arithmetic stays lazy; a loop that may compute is not -/
+example : BK.lazyOk 3 (BK.Prog.ofItems [.assign 1 (.const .eager), .assign 2 (.lift [0, 1]), .ret (.same 2)])
+    (BK.initEnv [0]) = true := by decide
+example : BK.lazyOk 2 (BK.Prog.ofItems [.assign 1 (.same 0),
+    .loop (BK.Prog.ofItems [.assign 1 (.const .eager)]), .ret (.same 1)]) (BK.initEnv [0]) = false := by decide
+example : 24 ≤ daskEntries.length := by decide
 
 /-- the shape of the perlin defect: `data = agg.data; data[:] = …; return data` is rejected … -/
 example : safe (Prog.ofItems [.op (.viewOf 1 0), .op (.write 1), .op (.viewOf 2 1)]) (inputs 1) 2 = false := by
